@@ -39,6 +39,37 @@ TODO = "check not built yet in this round (static design exists in DESIGN.md)"
 
 
 def fill(add, na):
+    add("C02",
+        "role-anchored AST rules + flow-ordered data dependence + constant "
+        "folding",
+        "Decides structural necessary conditions of the island definition in "
+        "find_islands / calc_bounding_box: full 3x3 connectivity, exact "
+        "threshold comparisons and complement mask, own-label restriction of "
+        "the seed test and region pixel list, no flux-truthiness membership, "
+        "axis/offset pairing and +1 upper bounds of the bounding box and its "
+        "consumers, seed monotonicity, disjointness term.",
+        "scipy's labelling; behaviour on specific images.",
+        "DESIGN.md §4 C02")
+    add("C04",
+        "value numbering into sympy + canonical-form identity, sibling "
+        "agreement, def-use patterns",
+        "Decides that every row of the analytic Jacobian is identically the "
+        "partial derivative of the inlined model (theta in degrees), that row "
+        "order agrees with every model builder / stderr loop, that the "
+        "1-sigma index is global across components, that the 1-sigma vector "
+        "is sqrt(diag(inv(J^T[C^-1]J))) with consistently whitened J, and "
+        "that the Dfun wrapper matches the kws it is called with.",
+        "floating-point accuracy; lmfit internals.", "DESIGN.md §4 C04")
+    add("C07",
+        "concurrency-structure analysis: roles, worker call-graph closure, "
+        "CFG phases and path rules, uniformity taint",
+        "Decides barrier arity vs pool size, the barrier protocol in worker "
+        "code (no reset, uniform wait sequence), failure containment (abort "
+        "before re-raise), shared-memory release on all normal and "
+        "exceptional paths, per-phase cross-stripe race freedom and the "
+        "stripe tiling idiom.",
+        "OS-level multiprocessing behaviour, timing, the numerical effect of "
+        "different stripe counts.", "DESIGN.md §4 C07")
     add("C08",
         "numeric-kind abstract interpretation + CFG typestate + linear forms "
         "+ link check",
@@ -50,6 +81,34 @@ def fill(add, na):
         "consumers, resolvable library symbols.",
         "healpy's pixelisation; exploration of operation histories (argued "
         "inductively from the per-method clauses).", "DESIGN.md §4 C08")
+    add("C10",
+        "index-origin/axis abstract interpretation with taint to position "
+        "sinks + boolean polarity tabulation + frame condition + link check",
+        "Decides that the pixel grid handed to the WCS is (column,row) "
+        "ordered with the announced origin and reaches sky_within in "
+        "degrees, that blanking/keeping polarity matches the stated table "
+        "for negate in {False,True}, that the only image write is "
+        "data[mask]=nan, that cube planes are masked identically, and that "
+        "all library symbols resolve.",
+        "astropy WCS and HEALPix geometry; 4-d inputs with two "
+        "non-degenerate extra axes.", "DESIGN.md §4 C10")
+    add("C11",
+        "index-origin/axis abstract interpretation + data dependence + "
+        "forward taint (non-interference) + link check",
+        "Decides that island pixels are converted to sky with matching axis "
+        "offsets, (column,row) order and origin, that the tested pixels are "
+        "the island's own, that region-derived values influence only the "
+        "skip guard (so the restricted run is a filter of the unrestricted "
+        "one), and the region loading cases.",
+        "numerical equality of fitted values; healpy/astropy behaviour.",
+        "DESIGN.md §4 C11")
+    add("C12",
+        "linear-form level coverage + sympy identity + role-anchored call "
+        "argument rules",
+        "Decides level coverage of all full-region consumers, the NUNIQ "
+        "code identity 4*4**d+ipix, MOC header/column dependence on "
+        "maxdepth/_uniq, healpy.boundaries arguments and one polygon per "
+        "pixel, and the absence of pickling hooks with paired save/load.",
+        "byte-level FITS/DS9 correctness.", "DESIGN.md §4 C12")
     for p in ["C%02d" % i for i in range(1, 21)]:
-        if p != "C08":
-            na[p] = TODO
+        na.setdefault(p, TODO)
